@@ -29,15 +29,25 @@ REF = open(os.path.join(os.path.dirname(os.path.dirname(os.path.abspath(__file__
 
 
 def callable_pair(b, name):
-    gi, gr = b.absgen_pair(name)
+    """a generator *function*: every call returns a fresh abstract generator (the k-th call on either side returns
+    the k-th generator of the pair list, so the two sides correspond by call order)"""
+    pairs = []
 
-    def mk(g, side):
+    def mk(idx, side):
+        calls = [0]
+
         def f(I_, a, k):
-            side.log.append((name + "()", 0, "call", tuple(a)))
-            return g
+            n = calls[0]
+            calls[0] += 1
+            while len(pairs) <= n:
+                p = b.absgen_pair(f"{name}@{len(pairs)}" if pairs else name)
+                p[0].canon_name = p[1].canon_name = name
+                pairs.append(p)
+            side.log.append((name + "()", n, "call", tuple(a)))
+            return pairs[n][idx]
         f._canon_label = name
         return native(f)
-    return mk(gi, b.impl), mk(gr, b.ref)
+    return mk(0, b.impl), mk(1, b.ref)
 
 
 def setup(I, name, cfg):
@@ -80,11 +90,30 @@ def finalize_decorator(I):
     Gi, Gr = callable_pair(b, "gen_func")
     Fi, Fr = callable_pair(b, "final_plan") if ok_callable else b.absgen_pair("final_plan")
     arg = opaque(I, "arg", token="arg")
-    dec = I.call_value(I.get_function(f"{MP}:finalize_decorator"), Fi)
-    inner = I.call_value(dec, Gi)
-    impl = I.call_value(inner, arg, key=arg)
-    rg = I.call_value(I.global_lookup(ref, "ref_finalize_decorated"), Gr, Fr, (arg,), {"key": arg})
-    b.run(impl, rg)
+    # the decorated function is a generator *function*: it can be called any number of times, each call an independent
+    # wrapped plan with its own cleanup.  Two consecutive invocations are driven (the second starts from the state the
+    # first left behind in the decorator's closure).
+    made = catch(I, lambda: None) if False else None
+    try:
+        dec = I.call_value(I.get_function(f"{MP}:finalize_decorator"), Fi)
+        inner = I.call_value(dec, Gi)
+    except PyRaise as pr:
+        inner = None
+        early = pr.exc
+    for round_ in (1, 2):
+        b.script.append(f"--- invocation {round_}")
+        try:
+            if inner is None:
+                raise PyRaise(early)
+            impl = I.call_value(inner, arg, key=arg)
+        except PyRaise as pr:
+            # raising at decoration / call time instead of at the first send is observationally the same for a
+            # consumer that iterates the plan immediately: model it as a generator that raises on the first send
+            impl = I.call_value(I.global_lookup(ref, "ref_raise_now"), pr.exc)
+        rg = I.call_value(I.global_lookup(ref, "ref_finalize_decorated"), Gr, Fr, (arg,), {"key": arg})
+        b.run(impl, rg)
+        if not (getattr(impl, "done", False)):
+            return        # the first invocation was left suspended at a closed cut point: nothing more to compare
 
 
 @task("contingency_wrapper", PROP, functions=[f"{MP}:contingency_wrapper"],
